@@ -554,6 +554,35 @@ def rule_r10(ctx):
             r.ob(f, "drain loop ends only when lmq_len is zero")
 
 
+def rule_r11(ctx):
+    r = ctx.rule("C18.R11", "T3", "the recorded extent belongs to the storage: in msgqueue.c every path that stores mq_alloc (the number of "
+                 "slots the wrap tests and the final free use) also installs the ring it describes (a store to mq_msgs) -- an "
+                 "extent changed on its own makes the cursors wrap at the wrong place and the ring is released with the wrong "
+                 "size", floor=2)
+    prog = ctx.prog
+    n = 0
+    for f in prog.fns_in("core/msgqueue.c"):
+        if f.cfg_failed:
+            continue
+        ext = [t for t in f.assigns() if t.node["lhs"].get("k") == "mem" and last_field(t.node["lhs"]) == "nni_msgq.mq_alloc"]
+        if not ext:
+            continue
+        sto = {(t.b, t.i) for t in f.assigns() if t.node["lhs"].get("k") == "mem" and last_field(t.node["lhs"]) == "nni_msgq.mq_msgs"}
+        for t in ext:
+            n += 1
+            before = bool(sto) and f.dominated_by((t.b, t.i), blocked=lambda b, i, e: (b, i) in sto)
+            after = bool(sto) and (f.exit, 0) not in f.reach((t.b, t.i + 1), blocked=lambda b, i, e: (b, i) in sto)
+            if before or after:
+                r.ob(f, "mq_alloc line %s: the ring is installed on the same paths" % t.line)
+            else:
+                ctx.fail(r, f, "mq_alloc stored without installing the ring it describes", t.line,
+                         "%s stores mq_alloc at line %s on a path that leaves mq_msgs as it was: put/get wrap at an extent the "
+                         "ring does not have (slots beyond it are never reached, or it is overrun), and nni_msgq_fini frees the "
+                         "ring with the wrong size" % (f.name, t.line))
+    if n < 2:
+        raise AnalysisBroken("only %d stores to mq_alloc found" % n)
+
+
 def run(ctx):
     ctx.guard(rule_r1)
     ctx.guard(rule_r2)
@@ -563,3 +592,4 @@ def run(ctx):
     ctx.guard(rule_r8)
     ctx.guard(rule_r9)
     ctx.guard(rule_r10)
+    ctx.guard(rule_r11)
